@@ -100,6 +100,19 @@ def check_case(case):
             df = M.model_diff(inst, got)
             if df:
                 out.append((f"roundtrip-differs/{suffix}", f"{desc['cls']} v{version}: {df[:3]} wire={data[-300:]!r}"))
+        if not out and case.get("twin", True):
+            # an equal-comparing but differently written instance (decimals with another exponent, date-times in
+            # another zone), serialized right after the original, must still come back as itself
+            tdesc, n = M.twin_desc(desc)
+            if n:
+                try:
+                    tinst = M.build(tdesc)
+                    data, header, got = roundtrip(tinst, FORMS[0], case["v2"])
+                    df = M.model_diff(tinst, got)
+                    if df:
+                        out.append(("equal-valued-instance-written-like-its-predecessor", f"{desc['cls']}: {df[:3]}"))
+                except Exception as e:
+                    out.append(("equal-valued-instance-roundtrip-raises", f"{desc['cls']}: {e!r}"))
     return out
 
 
